@@ -29,7 +29,7 @@ class C05(flow.Spec):
     partial = []
 
     def gen_cases(self, rng, tier):
-        n = {'quick': 300, 'thorough': 6000, 'search': 1500}[tier]
+        n = {'quick': 500, 'thorough': 8000, 'search': 2000}[tier]
         return [self.gen_one(rng) for _ in range(n)]
 
     def gen_one(self, rng):
